@@ -157,7 +157,7 @@ def match_ledger(ledger, pid, failure):
 
 
 def run_check(pid, shard_fn, params, tier, seed, min_evaluations, rule, level="exploration",
-              packages=("rbmon",), profile="verif", nshards=NCPU, assumptions=(), witness_fn=None, extra_profiles=()):
+              packages=("rbmon",), profile="verif", nshards=NCPU, assumptions=(), witness_fn=None, extra_profiles=(), external=None):
     t0 = time.time()
     build_s = build(packages, profile)
     for ep in extra_profiles:
@@ -193,6 +193,22 @@ def run_check(pid, shard_fn, params, tier, seed, min_evaluations, rule, level="e
                     results.append(f.result())
                 except Exception as e:  # BrokenProcessPool and friends
                     results.append({"harness_error": "shard %d died: %r" % (k, e)})
+    merged, harness_errors = merge_results(results)
+    ntc = None
+    if external is not None:
+        # a Rust monitor (direct calls into the crates) contributes its own report
+        em, entc, eerr = external_report(external[0], profile, tier, seed, external[1])
+        merged["evaluations"] += em["evaluations"]
+        merged["failures"] += em["failures"]
+        merged["samples"] = (em["samples"][:2] + merged["samples"])[:3]
+        merged["stats"][external[0]] = em["stats"]
+        harness_errors += eerr
+        ntc = len(merged["nontrivial"]) + entc
+    return finish(pid, tier, seed, merged, harness_errors, ledger, known_lines, rule, level, profile, build_s, nshards,
+                  assumptions, min_evaluations, t0, nontrivial_count=ntc)
+
+
+def merge_results(results):
     merged = {"evaluations": 0, "nontrivial": set(), "discards": {}, "inconclusive": {}, "failures": [], "samples": [], "stats": {}}
     harness_errors = []
     for r in results:
@@ -207,6 +223,12 @@ def run_check(pid, shard_fn, params, tier, seed, min_evaluations, rule, level="e
         if len(merged["samples"]) < 3:
             merged["samples"] += r["samples"][: 3 - len(merged["samples"])]
         merge_stats(merged["stats"], r["stats"])
+    return merged, harness_errors
+
+
+def finish(pid, tier, seed, merged, harness_errors, ledger, known_lines, rule, level, profile, build_s, nshards,
+           assumptions, min_evaluations, t0, nontrivial_count=None):
+    violations = []
     known_hits = {}
     seen_sigs = set()
     for f in merged["failures"]:
@@ -238,7 +260,7 @@ def run_check(pid, shard_fn, params, tier, seed, min_evaluations, rule, level="e
         return x
     coverage = {
         "evaluations": merged["evaluations"],
-        "distinct_nontrivial": len(merged["nontrivial"]),
+        "distinct_nontrivial": len(merged["nontrivial"]) if nontrivial_count is None else nontrivial_count,
         "rule": rule,
         "samples": merged["samples"],
         "discarded": merged["discards"],
@@ -268,7 +290,7 @@ def run_check(pid, shard_fn, params, tier, seed, min_evaluations, rule, level="e
     for line in known_lines:
         print(line)
     print("%s tier=%s seed=%d evaluations=%d distinct_nontrivial=%d discarded=%d inconclusive=%d wall=%.1fs" % (
-        pid, tier, seed, merged["evaluations"], len(merged["nontrivial"]),
+        pid, tier, seed, merged["evaluations"], len(merged["nontrivial"]) if nontrivial_count is None else nontrivial_count,
         sum(merged["discards"].values()), sum(merged["inconclusive"].values()), wall))
     if harness_errors:
         print("HARNESS-ERROR in %d shard(s):\n%s" % (len(harness_errors), harness_errors[0][-3000:]))
@@ -279,10 +301,12 @@ def run_check(pid, shard_fn, params, tier, seed, min_evaluations, rule, level="e
         return EXIT_VIOLATION
     if harness_errors:
         return EXIT_HARNESS
-    if merged["evaluations"] < min_evaluations or len(merged["nontrivial"]) < 2:
+    if merged["evaluations"] < min_evaluations or (len(merged["nontrivial"]) if nontrivial_count is None else nontrivial_count) < 2:
         print("INCONCLUSIVE: only %d evaluations (minimum %d)" % (merged["evaluations"], min_evaluations))
         return EXIT_INCONCLUSIVE
     return EXIT_OK
+
+
 
 
 def program_witness(wcase, entry):
@@ -301,3 +325,70 @@ def program_witness(wcase, entry):
     if "stdout" in exp and rep.get("run", {}).get("stdout") != exp["stdout"]:
         return True
     return False
+
+
+def known_lines_for(pid, ledger, witness_fn=None):
+    lines = []
+    for e in ledger.get("open", []):
+        if e.get("property") != pid:
+            continue
+        still = True
+        if witness_fn is not None and e.get("witness"):
+            try:
+                with open(os.path.join(ROOT, e["witness"])) as f:
+                    wcase = json.load(f)
+                still = witness_fn(wcase, e)
+            except Exception:
+                still = True
+        if still:
+            lines.append("KNOWN-FINDING: property=%s %s" % (pid, e.get("what", "")))
+    return lines
+
+
+def run_external_check(pid, package, extra_args, tier, seed, rule, min_evaluations, level="exploration", profile="verif",
+                       assumptions=(), witness_fn=None, timeout=7200):
+    """A check whose monitor is a Rust program of the harness workspace (pcmon, bitmon): build it from /repo's
+    working tree, run it, and turn its JSON report into evidence and a verdict with the shared ledger logic."""
+    t0 = time.time()
+    build_s = build((package,), profile)
+    ledger = load_ledger()
+    known_lines = known_lines_for(pid, ledger, witness_fn)
+    merged, ntc, harness_errors = external_report(package, profile, tier, seed, extra_args, timeout)
+    return finish(pid, tier, seed, merged, harness_errors, ledger, known_lines, rule, level, profile, build_s, 1,
+                  assumptions, min_evaluations, t0, nontrivial_count=ntc)
+
+
+def external_report(package, profile, tier, seed, extra_args=(), timeout=7200):
+    """Runs a Rust monitor of the harness workspace and converts its JSON report. Returns (merged, distinct_nontrivial, harness_errors)."""
+    out = os.path.join(HARNESS, "target", "%s_%s_%d.json" % (package, tier, os.getpid()))
+    cmd = [os.path.join(HARNESS, "target", profile, package), "--tier", tier, "--seed", str(seed), "--out", out] + list(extra_args)
+    harness_errors = []
+    rep = None
+    try:
+        r = subprocess.run(cmd, cwd=HARNESS, stdout=subprocess.PIPE, stderr=subprocess.STDOUT, text=True, timeout=timeout)
+        if r.returncode != 0:
+            harness_errors.append("%s exited %d: %s" % (package, r.returncode, r.stdout[-2000:]))
+        else:
+            with open(out) as f:
+                rep = json.load(f)
+    except subprocess.TimeoutExpired:
+        harness_errors.append("%s timed out (inconclusive, not a verdict)" % package)
+    finally:
+        try:
+            os.remove(out)
+        except OSError:
+            pass
+    merged = {"evaluations": 0, "nontrivial": set(), "discards": {}, "inconclusive": {}, "failures": [], "samples": [], "stats": {}}
+    ntc = 0
+    if rep is not None:
+        merged["evaluations"] = int(rep.get("evaluations", 0))
+        ntc = int(rep.get("distinct_nontrivial", 0))
+        merged["failures"] = rep.get("failures", [])
+        merged["samples"] = rep.get("samples", [])[:3]
+        merged["stats"] = {k: v for k, v in rep.items() if k not in ("evaluations", "distinct_nontrivial", "failures", "samples")}
+        # signatures that overflowed the failure list still count
+        listed = set(f["sig"] for f in merged["failures"])
+        for sig, n in (rep.get("failure_signature_counts") or {}).items():
+            if sig not in listed:
+                merged["failures"].append({"sig": sig, "what": "%s (%d occurrences, no witness listed)" % (sig, n), "case": {}})
+    return merged, ntc, harness_errors
